@@ -3,6 +3,7 @@ import YaqsModel.Lemmas.Dissipation
 import YaqsModel.Lemmas.AccumulateEnsemble
 import YaqsModel.Lemmas.AccumulateCircuit
 import YaqsModel.Lemmas.FlowStability
+import YaqsModel.Lemmas.LocalUniform
 
 /-!
 # C03 — noisy circuit trajectories average to ideal gates plus local Lindblad noise  (placement + lottery part)
@@ -1099,5 +1100,247 @@ example (M : Matrix (Fin 2) (Fin 2) ℂ) (dt : ℝ) (hdt : 0 ≤ dt) :
   have h0 : ‖lindCLM (0 : Matrix (Fin 2) (Fin 2) ℂ) []‖ = 0 := by rw [hz, norm_zero]
   have h := (c03_flow_stable (0 : Matrix (Fin 2) (Fin 2) ℂ) [] M).2 dt hdt (by rw [h0]; simp)
   simpa [h0] using h
+
+end Yaqs.Accumulate
+
+
+/-!
+# C03/C01, extension 5 (xu03) — the local error hypothesis discharged: an explicit constant, uniform over the unit vectors
+
+`c03_first_order_global_opnorm` still assumed (a) ONE local constant `C` for all unit vectors.  For the exponential no-jump family
+`A(t) = exp(t·G)`, `G = −iH − ½K`, `K = Σ_k γ_k L_k†L_k` (`expFamily`, an `IsNoJumpFamily` — `noJump_expFamily`; it is the MCWF
+propagator `exp(−i t H_eff)` and the single-exponential form of the code's dissipation + exact unitary step), `H` Hermitian and
+`γ_k ≥ 0`, this is now a theorem in the `ℓ∞` operator norm of matrices with the closed-form constant
+`explicitC = N(15N²+17)·Λ²`, `Λ = 2‖H‖ + 2Σ_k|γ_k|‖L_k‖‖L_k†‖`, `N = card n`, valid for `0 ≤ t`, `t·Λ ≤ 1`
+(sharper: `localC`, in `‖G‖+‖G†‖`, `‖K‖`, `Σ|γ|‖L‖‖L†‖`, `‖𝓛‖`).  The uniformity in `ψ` rests on `γ_k ≥ 0`: the jump state
+`Σ_k γ_k (L_kφ)(L_kφ)†` is positive, so its norm is at most `N` times its trace, which is exactly the denominator `tr(Kφφ†)` of the
+lottery — the normalised jump state stays bounded however small the total jump rate is, and the case of a vanishing rate (where the
+model's division returns `0`, the code never draws a jump) is covered by the same bound.
+The same holds (C03.15/16) for every product family `Π_k exp(t·X_k)` whose generators sum to `G` — in particular the code's order-1 step
+`dissStep Ls t * unitaryStep H t` of `analog_tjm_1` (exact unitary step, then one factor `exp(−(tγ_k/2)L_k†L_k)` per process, in list
+order) and the order-2 Strang step `dissStep Ls (t/2) * unitaryStep H t * dissStep Ls (t/2)` of `analog_tjm_2` (C03.17) — with
+`g = Σ_k(‖X_k‖ + ‖X_k†‖)` in place of `‖G‖+‖G†‖`.
+Not covered: the TDVP approximation of the unitary step (C10/C11), and norms other than the `ℓ∞` operator norm.
+-/
+namespace Yaqs.Accumulate
+
+open Matrix NormedSpace Yaqs.MasterEq Yaqs.Consistency
+open scoped Matrix.Norms.Operator
+
+variable {n : Type} [Fintype n] [DecidableEq n]
+
+set_option backward.isDefEq.respectTransparency false in
+/-- **C03.11 `c03_taylor_remainders`** (item 1) second-order Taylor remainders with explicit constants, `t ≥ 0`:
+    `‖exp(tG) − 1 − tG‖ ≤ (t‖G‖)²e^{t‖G‖}/2` for every matrix `G` (the no-jump propagator), and for the exact Lindblad flow
+    `‖exp(t𝓛)ρ − ρ − t·𝓛ρ‖ ≤ (t‖𝓛‖)²e^{t‖𝓛‖}/2·‖ρ‖` (real Banach algebra of bounded operators on matrices). -/
+theorem c03_taylor_remainders (H : Matrix n n ℂ) (Ls : List (Proc (Matrix n n ℂ))) (G ρ : Matrix n n ℂ) (t : ℝ) (ht : 0 ≤ t) :
+    ‖exp (t • G) - 1 - t • G‖ ≤ (t * ‖G‖) ^ 2 * Real.exp (t * ‖G‖) / 2 ∧
+    ‖lindFlow H Ls t ρ - ρ - t • lind H Ls ρ‖
+      ≤ (t * ‖lindCLM H Ls‖) ^ 2 * Real.exp (t * ‖lindCLM H Ls‖) / 2 * ‖ρ‖ := by
+  constructor
+  · have h := Yaqs.TrotterLimit.norm_exp_sub_one_sub_le (t • G)
+    rw [norm_smul, Real.norm_of_nonneg ht] at h
+    have h2 := Yaqs.TrotterLimit.two_mul_exp_sub_le (mul_nonneg ht (norm_nonneg G))
+    linarith
+  · have h := lindFlow_taylor2_exp H Ls t ht ρ
+    have h2 := Yaqs.TrotterLimit.two_mul_exp_sub_le (mul_nonneg ht (norm_nonneg (lindCLM H Ls)))
+    refine h.trans (mul_le_mul_of_nonneg_right ?_ (norm_nonneg _))
+    linarith
+
+set_option backward.isDefEq.respectTransparency false in
+/-- **C03.12 `c03_average_expansion_uniform`** (item 2) the one-step trajectory average expanded to first order with a remainder
+    that is uniform in the state: `H` Hermitian, `γ_k ≥ 0`, `ψ` a unit vector, `0 ≤ t`, `t(‖G‖+‖G†‖) ≤ 1`:
+    `‖pureAverage Ls (e^{tG}ψ) − (ψψ† + t·𝓛(ψψ†))‖ ≤ localC1·t²`, `localC1 = N(7g²(1+N²) + 8N²‖K‖g + 8·jB·g)`,
+    `g = ‖G‖+‖G†‖`, `jB = Σ|γ_k|‖L_k‖‖L_k†‖` — no-jump branch, jump branches, both normalisations and the
+    vanishing-rate case of `pureAverage` included. -/
+theorem c03_average_expansion_uniform (H : Matrix n n ℂ) (hH : Hᴴ = H) (Ls : List (Proc (Matrix n n ℂ)))
+    (hγ : ∀ p ∈ Ls, 0 ≤ p.gamma) (ψ : n → ℂ) (hψ : star ψ ⬝ᵥ ψ = 1) (t : ℝ) (ht : 0 ≤ t)
+    (hg : t * gB H Ls ≤ 1) :
+    ‖pureAverage Ls (expFamily H Ls t *ᵥ ψ) - (vecMulVec ψ (star ψ) + t • lind H Ls (vecMulVec ψ (star ψ)))‖
+      ≤ localC1 H Ls * t ^ 2 ∧
+    localC1 H Ls = Fintype.card n * (7 * (‖genG H Ls‖ + ‖(genG H Ls)ᴴ‖) ^ 2 * (1 + (Fintype.card n : ℝ) ^ 2)
+      + 8 * (Fintype.card n : ℝ) ^ 2 * ‖genK Ls‖ * (‖genG H Ls‖ + ‖(genG H Ls)ᴴ‖)
+      + 8 * jumpBound Ls * (‖genG H Ls‖ + ‖(genG H Ls)ᴴ‖)) :=
+  ⟨average_expand_uniform H hH Ls hγ ψ hψ t ht hg, rfl⟩
+
+set_option backward.isDefEq.respectTransparency false in
+/-- **C03.13 `c03_local_error_uniform`** (item 3) ONE explicit constant for all unit vectors: `H` Hermitian, `γ_k ≥ 0`,
+    `Λ = 2‖H‖ + 2Σ_k|γ_k|‖L_k‖‖L_k†‖`, `C = N(15N²+17)Λ²`; for every unit `ψ` and every `0 ≤ t` with `t·Λ ≤ 1`
+    `‖pureAverage Ls (e^{tG}ψ) − exp(t𝓛)(ψψ†)‖ ≤ C·t²`.  (Second conjunct: the closed formula of `C`; third: the sharper
+    constant `localC` under `t(‖G‖+‖G†‖) ≤ 1`, `t‖𝓛‖ ≤ 1`.) -/
+theorem c03_local_error_uniform (H : Matrix n n ℂ) (hH : Hᴴ = H) (Ls : List (Proc (Matrix n n ℂ)))
+    (hγ : ∀ p ∈ Ls, 0 ≤ p.gamma) :
+    (∀ ψ : n → ℂ, star ψ ⬝ᵥ ψ = 1 → ∀ t : ℝ, 0 ≤ t → t * lamB H Ls ≤ 1 →
+      ‖pureAverage Ls (expFamily H Ls t *ᵥ ψ) - lindFlow H Ls t (vecMulVec ψ (star ψ))‖ ≤ explicitC H Ls * t ^ 2) ∧
+    explicitC H Ls = Fintype.card n * (15 * (Fintype.card n : ℝ) ^ 2 + 17)
+      * (2 * ‖H‖ + 2 * (Ls.map fun p => ‖rateC p.gamma‖ * (‖p.op‖ * ‖p.opᴴ‖)).sum) ^ 2 ∧
+    (∀ ψ : n → ℂ, star ψ ⬝ᵥ ψ = 1 → ∀ t : ℝ, 0 ≤ t → t * gB H Ls ≤ 1 → t * ‖lindCLM H Ls‖ ≤ 1 →
+      ‖pureAverage Ls (expFamily H Ls t *ᵥ ψ) - lindFlow H Ls t (vecMulVec ψ (star ψ))‖ ≤ localC H Ls * t ^ 2) :=
+  ⟨fun ψ hψ t ht hΛ => local_error_explicit H hH Ls hγ ψ hψ t ht hΛ, rfl,
+   fun ψ hψ t ht hg hL => local_error_uniform H hH Ls hγ ψ hψ t ht hg hL⟩
+
+set_option backward.isDefEq.respectTransparency false in
+/-- **C03.14 `c03_first_order_global_unconditional`** `c03_first_order_global_opnorm` with no analytic hypothesis left: for the
+    exponential no-jump family, `H` Hermitian, `γ_k ≥ 0`, `0 ≤ dt`, `dt·Λ ≤ 1`, the trajectory average after `m` steps,
+    `T = m·dt`, is within `e^{2‖𝓛‖T}·(‖initial discrepancy‖ + N(15N²+17)Λ²·T·dt)` of the Lindblad solution `exp(T𝓛)ρ₀`.
+    What remains assumed is only the definition of the ensemble sequence (`hens`, `hstep`). -/
+theorem c03_first_order_global_unconditional (H : Matrix n n ℂ) (hH : Hᴴ = H) (Ls : List (Proc (Matrix n n ℂ)))
+    (hγ : ∀ p ∈ Ls, 0 ≤ p.gamma) (dt T : ℝ) (hdt : 0 ≤ dt) (m : ℕ) (hT : m * dt = T)
+    (hsmall : dt * lamB H Ls ≤ 1)
+    (ens : ℕ → Ens n) (ρ₀ : Matrix n n ℂ)
+    (hens : ∀ k < m, IsEnsemble (ens k))
+    (hstep : ∀ k < m, ensState (ens (k + 1)) = ensStep Ls (expFamily H Ls dt) (ens k)) :
+    ‖ensState (ens m) - lindFlow H Ls T ρ₀‖
+      ≤ Real.exp (2 * ‖lindCLM H Ls‖ * T) * (‖ensState (ens 0) - ρ₀‖ + explicitC H Ls * T * dt) := by
+  have hC : 0 ≤ explicitC H Ls := by unfold explicitC; positivity
+  have hL : dt * ‖lindCLM H Ls‖ ≤ 1 := (mul_le_mul_of_nonneg_left (norm_lindCLM_le H Ls) hdt).trans hsmall
+  exact c03_first_order_global_opnorm H Ls (expFamily H Ls) dt (explicitC H Ls) T hdt hC m hT hL ens ρ₀ hens hstep
+    (fun ψ hψ => local_error_explicit H hH Ls hγ ψ hψ dt hdt hsmall)
+
+/-- non-vacuity: the admissible step range `[0, t₀]` is a proper interval for every model (`t₀ = 1/(Λ+1)`) -/
+example (H : Matrix n n ℂ) (Ls : List (Proc (Matrix n n ℂ))) :
+    ∃ t₀ : ℝ, 0 < t₀ ∧ ∀ t : ℝ, 0 ≤ t → t ≤ t₀ → t * lamB H Ls ≤ 1 := by
+  have hΛ : 0 ≤ lamB H Ls := by
+    have := jumpBound_nonneg Ls
+    unfold lamB; positivity
+  refine ⟨1 / (lamB H Ls + 1), by positivity, fun t _ htt => ?_⟩
+  calc t * lamB H Ls ≤ 1 / (lamB H Ls + 1) * lamB H Ls := mul_le_mul_of_nonneg_right htt hΛ
+    _ = lamB H Ls / (lamB H Ls + 1) := by ring
+    _ ≤ 1 := by rw [div_le_one (by positivity)]; linarith
+
+set_option backward.isDefEq.respectTransparency false in
+/-- non-vacuity: one qubit, `H = σ_z`, amplitude damping `L = σ₋` with `γ = 1/10`, `ψ = |0⟩` meet all hypotheses of
+    `c03_local_error_uniform` -/
+example (t : ℝ) (ht : 0 ≤ t)
+    (hΛ : t * lamB (!![1, 0; 0, -1] : Matrix (Fin 2) (Fin 2) ℂ) [⟨1 / 10, !![0, 1; 0, 0]⟩] ≤ 1) :
+    ‖pureAverage [⟨1 / 10, !![0, 1; 0, 0]⟩]
+        (expFamily (!![1, 0; 0, -1] : Matrix (Fin 2) (Fin 2) ℂ) [⟨1 / 10, !![0, 1; 0, 0]⟩] t *ᵥ ![1, 0])
+      - lindFlow (!![1, 0; 0, -1] : Matrix (Fin 2) (Fin 2) ℂ) [⟨1 / 10, !![0, 1; 0, 0]⟩] t (vecMulVec ![1, 0] (star ![1, 0]))‖
+      ≤ explicitC (!![1, 0; 0, -1] : Matrix (Fin 2) (Fin 2) ℂ) [⟨1 / 10, !![0, 1; 0, 0]⟩] * t ^ 2 := by
+  refine (c03_local_error_uniform (!![1, 0; 0, -1] : Matrix (Fin 2) (Fin 2) ℂ) ?_ [⟨1 / 10, !![0, 1; 0, 0]⟩] ?_).1
+    ![1, 0] ?_ t ht hΛ
+  · ext i j
+    fin_cases i <;> fin_cases j <;> simp
+  · intro p hp
+    simp only [List.mem_singleton] at hp
+    subst hp
+    norm_num
+  · simp [dotProduct, Fin.sum_univ_two]
+
+set_option backward.isDefEq.respectTransparency false in
+/-- **C03.15 `c03_local_error_order1`** the uniform local error for the step the code actually takes at order 1
+    (`analog_tjm_1`): no-jump propagator `dissStep Ls t * unitaryStep H t` = exact unitary step followed by the per-process
+    dissipation factors `exp(−(tγ_k/2)L_k†L_k)` in list order (NOT assumed to commute).  `H` Hermitian, `γ_k ≥ 0`, `ψ` unit,
+    `0 ≤ t`, `t·g₁ ≤ 1`, `t‖𝓛‖ ≤ 1`, `g₁ = gP (order1Gens H Ls) = Σ_k(‖X_k‖+‖X_k†‖)` over the generators
+    `X_k = −(γ_k/2)L_k†L_k`, `−iH`:  `‖pureAverage Ls (A(t)ψ) − exp(t𝓛)(ψψ†)‖ ≤ (famC g₁ + N(3/2)‖𝓛‖²)·t²`.
+    Second conjunct: the same for ANY list of generators with sum `G` (any splitting, any order — e.g. the Strang arrangement). -/
+theorem c03_local_error_order1 (H : Matrix n n ℂ) (hH : Hᴴ = H) (Ls : List (Proc (Matrix n n ℂ)))
+    (hγ : ∀ p ∈ Ls, 0 ≤ p.gamma) :
+    (∀ ψ : n → ℂ, star ψ ⬝ᵥ ψ = 1 → ∀ t : ℝ, 0 ≤ t → t * gP (order1Gens H Ls) ≤ 1 → t * ‖lindCLM H Ls‖ ≤ 1 →
+      ‖pureAverage Ls ((dissStep Ls t * unitaryStep H t) *ᵥ ψ) - lindFlow H Ls t (vecMulVec ψ (star ψ))‖
+        ≤ (famC (gP (order1Gens H Ls)) Ls + Fintype.card n * (3 / 2 * ‖lindCLM H Ls‖ ^ 2)) * t ^ 2) ∧
+    (∀ Xs : List (Matrix n n ℂ), Xs.sum = genG H Ls →
+      ∀ ψ : n → ℂ, star ψ ⬝ᵥ ψ = 1 → ∀ t : ℝ, 0 ≤ t → t * gP Xs ≤ 1 → t * ‖lindCLM H Ls‖ ≤ 1 →
+      ‖pureAverage Ls (prodFamily Xs t *ᵥ ψ) - lindFlow H Ls t (vecMulVec ψ (star ψ))‖
+        ≤ (famC (gP Xs) Ls + Fintype.card n * (3 / 2 * ‖lindCLM H Ls‖ ^ 2)) * t ^ 2) :=
+  ⟨fun ψ hψ t ht hg hL => local_error_order1 H hH Ls hγ ψ hψ t ht hg hL,
+   fun Xs hs ψ hψ t ht hg hL => local_error_prodFamily H hH Ls hγ Xs hs ψ hψ t ht hg hL⟩
+
+set_option backward.isDefEq.respectTransparency false in
+/-- **C03.16 `c03_first_order_global_order1`** the global first-order bound for the code's order-1 step with no analytic
+    hypothesis: `H` Hermitian, `γ_k ≥ 0`, `0 ≤ dt`, `dt·g₁ ≤ 1`, `dt·‖𝓛‖ ≤ 1`; after `m` steps, `T = m·dt`,
+    `‖trajectory average − exp(T𝓛)ρ₀‖ ≤ e^{2‖𝓛‖T}·(‖initial discrepancy‖ + C·T·dt)`, `C = famC g₁ + N(3/2)‖𝓛‖²`. -/
+theorem c03_first_order_global_order1 (H : Matrix n n ℂ) (hH : Hᴴ = H) (Ls : List (Proc (Matrix n n ℂ)))
+    (hγ : ∀ p ∈ Ls, 0 ≤ p.gamma) (dt T : ℝ) (hdt : 0 ≤ dt) (m : ℕ) (hT : m * dt = T)
+    (hg : dt * gP (order1Gens H Ls) ≤ 1) (hsmall : dt * ‖lindCLM H Ls‖ ≤ 1)
+    (ens : ℕ → Ens n) (ρ₀ : Matrix n n ℂ)
+    (hens : ∀ k < m, IsEnsemble (ens k))
+    (hstep : ∀ k < m, ensState (ens (k + 1)) = ensStep Ls (dissStep Ls dt * unitaryStep H dt) (ens k)) :
+    ‖ensState (ens m) - lindFlow H Ls T ρ₀‖
+      ≤ Real.exp (2 * ‖lindCLM H Ls‖ * T)
+        * (‖ensState (ens 0) - ρ₀‖
+          + (famC (gP (order1Gens H Ls)) Ls + Fintype.card n * (3 / 2 * ‖lindCLM H Ls‖ ^ 2)) * T * dt) := by
+  have hg0 : 0 ≤ gP (order1Gens H Ls) :=
+    add_nonneg (Yaqs.TrotterLimit.list_sum_norm_nonneg _) (Yaqs.TrotterLimit.list_sum_norm_nonneg _)
+  have hj := jumpBound_nonneg Ls
+  have hC : 0 ≤ famC (gP (order1Gens H Ls)) Ls + Fintype.card n * (3 / 2 * ‖lindCLM H Ls‖ ^ 2) := by
+    unfold famC; positivity
+  exact c03_first_order_global_opnorm H Ls (fun t => dissStep Ls t * unitaryStep H t) dt _ T hdt hC m hT hsmall ens ρ₀
+    hens hstep (fun ψ hψ => local_error_order1 H hH Ls hγ ψ hψ dt hdt hg hsmall)
+
+set_option backward.isDefEq.respectTransparency false in
+/-- non-vacuity: `H = σ_z`, `L = σ₋`, `γ = 1/10`, `ψ = |0⟩` meet the hypotheses of `c03_local_error_order1` -/
+example (t : ℝ) (ht : 0 ≤ t)
+    (hg : t * gP (order1Gens (!![1, 0; 0, -1] : Matrix (Fin 2) (Fin 2) ℂ) [⟨1 / 10, !![0, 1; 0, 0]⟩]) ≤ 1)
+    (hL : t * ‖lindCLM (!![1, 0; 0, -1] : Matrix (Fin 2) (Fin 2) ℂ) [⟨1 / 10, !![0, 1; 0, 0]⟩]‖ ≤ 1) :
+    ‖pureAverage [⟨1 / 10, !![0, 1; 0, 0]⟩]
+        ((dissStep [⟨1 / 10, !![0, 1; 0, 0]⟩] t * unitaryStep (!![1, 0; 0, -1] : Matrix (Fin 2) (Fin 2) ℂ) t) *ᵥ ![1, 0])
+      - lindFlow (!![1, 0; 0, -1] : Matrix (Fin 2) (Fin 2) ℂ) [⟨1 / 10, !![0, 1; 0, 0]⟩] t (vecMulVec ![1, 0] (star ![1, 0]))‖
+      ≤ (famC (gP (order1Gens (!![1, 0; 0, -1] : Matrix (Fin 2) (Fin 2) ℂ) [⟨1 / 10, !![0, 1; 0, 0]⟩]))
+            [⟨1 / 10, !![0, 1; 0, 0]⟩]
+          + Fintype.card (Fin 2)
+            * (3 / 2 * ‖lindCLM (!![1, 0; 0, -1] : Matrix (Fin 2) (Fin 2) ℂ) [⟨1 / 10, !![0, 1; 0, 0]⟩]‖ ^ 2)) * t ^ 2 := by
+  refine (c03_local_error_order1 (!![1, 0; 0, -1] : Matrix (Fin 2) (Fin 2) ℂ) ?_ [⟨1 / 10, !![0, 1; 0, 0]⟩] ?_).1
+    ![1, 0] ?_ t ht hg hL
+  · ext i j
+    fin_cases i <;> fin_cases j <;> simp
+  · intro p hp
+    simp only [List.mem_singleton] at hp
+    subst hp
+    norm_num
+  · simp [dotProduct, Fin.sum_univ_two]
+
+set_option backward.isDefEq.respectTransparency false in
+/-- **C03.17 `c03_local_error_order2`** the uniform local error and the global first-order bound for the order-2 (Strang) step of
+    `analog_tjm_2`, `A(t) = dissStep Ls (t/2) * unitaryStep H t * dissStep Ls (t/2)` (half dissipation sweep, exact unitary step,
+    half dissipation sweep; factors not assumed to commute): `H` Hermitian, `γ_k ≥ 0`, `g₂ = gP (order2Gens H Ls)`,
+    `C = famC g₂ + N(3/2)‖𝓛‖²`; (1) for every unit `ψ`, `0 ≤ t`, `t·g₂ ≤ 1`, `t‖𝓛‖ ≤ 1`:
+    `‖pureAverage Ls (A(t)ψ) − exp(t𝓛)(ψψ†)‖ ≤ C·t²`; (2) after `m` steps of size `dt` (same smallness), `T = m·dt`:
+    `‖trajectory average − exp(T𝓛)ρ₀‖ ≤ e^{2‖𝓛‖T}(‖initial discrepancy‖ + C·T·dt)`.
+    (Only first order is claimed; the second-order accuracy of the Strang arrangement is not proved here.) -/
+theorem c03_local_error_order2 (H : Matrix n n ℂ) (hH : Hᴴ = H) (Ls : List (Proc (Matrix n n ℂ)))
+    (hγ : ∀ p ∈ Ls, 0 ≤ p.gamma) :
+    (∀ ψ : n → ℂ, star ψ ⬝ᵥ ψ = 1 → ∀ t : ℝ, 0 ≤ t → t * gP (order2Gens H Ls) ≤ 1 → t * ‖lindCLM H Ls‖ ≤ 1 →
+      ‖pureAverage Ls ((dissStep Ls (t / 2) * unitaryStep H t * dissStep Ls (t / 2)) *ᵥ ψ)
+          - lindFlow H Ls t (vecMulVec ψ (star ψ))‖
+        ≤ (famC (gP (order2Gens H Ls)) Ls + Fintype.card n * (3 / 2 * ‖lindCLM H Ls‖ ^ 2)) * t ^ 2) ∧
+    (∀ (dt T : ℝ) (m : ℕ) (ens : ℕ → Ens n) (ρ₀ : Matrix n n ℂ), 0 ≤ dt → m * dt = T →
+      dt * gP (order2Gens H Ls) ≤ 1 → dt * ‖lindCLM H Ls‖ ≤ 1 →
+      (∀ k < m, IsEnsemble (ens k)) →
+      (∀ k < m, ensState (ens (k + 1))
+        = ensStep Ls (dissStep Ls (dt / 2) * unitaryStep H dt * dissStep Ls (dt / 2)) (ens k)) →
+      ‖ensState (ens m) - lindFlow H Ls T ρ₀‖
+        ≤ Real.exp (2 * ‖lindCLM H Ls‖ * T)
+          * (‖ensState (ens 0) - ρ₀‖
+            + (famC (gP (order2Gens H Ls)) Ls + Fintype.card n * (3 / 2 * ‖lindCLM H Ls‖ ^ 2)) * T * dt)) := by
+  refine ⟨fun ψ hψ t ht hg hL => local_error_order2 H hH Ls hγ ψ hψ t ht hg hL, ?_⟩
+  intro dt T m ens ρ₀ hdt hT hg hsmall hens hstep
+  have hg0 : 0 ≤ gP (order2Gens H Ls) :=
+    add_nonneg (Yaqs.TrotterLimit.list_sum_norm_nonneg _) (Yaqs.TrotterLimit.list_sum_norm_nonneg _)
+  have hj := jumpBound_nonneg Ls
+  have hC : 0 ≤ famC (gP (order2Gens H Ls)) Ls + Fintype.card n * (3 / 2 * ‖lindCLM H Ls‖ ^ 2) := by
+    unfold famC; positivity
+  exact c03_first_order_global_opnorm H Ls (fun t => dissStep Ls (t / 2) * unitaryStep H t * dissStep Ls (t / 2)) dt _ T
+    hdt hC m hT hsmall ens ρ₀ hens hstep (fun ψ hψ => local_error_order2 H hH Ls hγ ψ hψ dt hdt hg hsmall)
+
+set_option backward.isDefEq.respectTransparency false in
+/-- non-vacuity: `H = σ_z`, `L = σ₋`, `γ = 1/10`, `ψ = |0⟩` meet the hypotheses of `c03_local_error_order2`; at `t = 0` the
+    smallness conditions hold and the statement reads `‖pureAverage Ls ψ − ψψ†‖ ≤ 0` -/
+example :
+    ‖pureAverage [⟨1 / 10, !![0, 1; 0, 0]⟩]
+        ((dissStep [⟨1 / 10, !![0, 1; 0, 0]⟩] ((0 : ℝ) / 2) * unitaryStep (!![1, 0; 0, -1] : Matrix (Fin 2) (Fin 2) ℂ) 0
+          * dissStep [⟨1 / 10, !![0, 1; 0, 0]⟩] ((0 : ℝ) / 2)) *ᵥ ![1, 0])
+      - lindFlow (!![1, 0; 0, -1] : Matrix (Fin 2) (Fin 2) ℂ) [⟨1 / 10, !![0, 1; 0, 0]⟩] 0 (vecMulVec ![1, 0] (star ![1, 0]))‖
+      ≤ 0 := by
+  have h := (c03_local_error_order2 (!![1, 0; 0, -1] : Matrix (Fin 2) (Fin 2) ℂ) ?_ [⟨1 / 10, !![0, 1; 0, 0]⟩] ?_).1
+    ![1, 0] ?_ 0 le_rfl (by simp) (by simp)
+  · simpa using h
+  · ext i j
+    fin_cases i <;> fin_cases j <;> simp
+  · intro p hp
+    simp only [List.mem_singleton] at hp
+    subst hp
+    norm_num
+  · simp [dotProduct, Fin.sum_univ_two]
 
 end Yaqs.Accumulate
